@@ -5,7 +5,7 @@
 From Coq Require Import QArith List Bool Arith.
 From NurbsV Require Import Base.Res Base.QList Spec.KnotSpec Gen.Consts Model.KV Model.Basis Model.CurveM Model.Ops
   Model.CurveOps Model.Linalg Model.Quadrature Model.LeastSq Model.CurveLS.
-From NurbsV Require Import Proofs.MatProofs Proofs.LSProofs Proofs.UnionProofs Proofs.EqBasic.
+From NurbsV Require Import Proofs.MatProofs Proofs.LSProofs Proofs.UnionProofs Proofs.EqBasic Proofs.EqInvariance.
 Import ListNotations.
 Open Scope Q_scope.
 Theorem C13_different_start_is_false :
@@ -79,6 +79,86 @@ Theorem C13_refinement_projection_exact :
        meq (mmul_n (knpts knew) T (mtrans_n (knpts kold) S)) (ident (knpts knew)).
 Proof. exact spline2spline_left_inverse. Qed.
 Print Assumptions C13_refinement_projection_exact.
+
+(* ---- reflexivity, and invariance of the answer under knot insertion into either operand, both operand orders
+   (Proofs/EqInvariance.v; `separated` = knots at least 1e-6 apart, cf. C17). ---- *)
+Theorem C13_reflexive :
+  forall (a : curve) (r : bool), c_eq a a = Ok r -> r = true.
+Proof. exact c_eq_refl. Qed.
+Print Assumptions C13_reflexive.
+
+Theorem C13_insertion_invariant_right :
+  forall (a b : curve) (P : list pt) (d : nat) (nodes : list Q),
+       cW a = None ->
+       cP a = Some P ->
+       WF (kvec (ckv a)) (cdeg a) ->
+       length P = cnpts a ->
+       Forall (fun q : pt => length q = d) P ->
+       c_knot_insert a nodes = Ok b ->
+       kdeg (ckv b) = cdeg a -> separated (kvec (ckv b)) -> forall r : bool, c_eq a b = Ok r -> r = true.
+Proof. exact c_eq_insert_r. Qed.
+Print Assumptions C13_insertion_invariant_right.
+
+Theorem C13_insertion_invariant_left :
+  forall (a b : curve) (P : list pt) (d : nat) (nodes : list Q),
+       cW a = None ->
+       cP a = Some P ->
+       WF (kvec (ckv a)) (cdeg a) ->
+       length P = cnpts a ->
+       Forall (fun q : pt => length q = d) P ->
+       c_knot_insert a nodes = Ok b ->
+       kdeg (ckv b) = cdeg a -> separated (kvec (ckv b)) -> forall r : bool, c_eq b a = Ok r -> r = true.
+Proof. exact c_eq_insert_l. Qed.
+Print Assumptions C13_insertion_invariant_left.
+
+Theorem C13_insertion_gives_true_right :
+  forall (a b : curve) (P : list pt) (d : nat) (nodes : list Q),
+       cW a = None ->
+       cP a = Some P ->
+       WF (kvec (ckv a)) (cdeg a) ->
+       length P = cnpts a ->
+       Forall (fun q : pt => length q = d) P ->
+       c_knot_insert a nodes = Ok b ->
+       kdeg (ckv b) = cdeg a ->
+       separated (kvec (ckv b)) ->
+       (forall kn : kv,
+        kor (ckv a) (ckv b) = Ok kn -> exists T E : mat, spline2spline (ckv a) kn None = Ok (T, E)) ->
+       c_eq a b = Ok true.
+Proof. exact c_eq_insert_r_true. Qed.
+Print Assumptions C13_insertion_gives_true_right.
+
+Theorem C13_insertion_gives_true_left :
+  forall (a b : curve) (P : list pt) (d : nat) (nodes : list Q),
+       cW a = None ->
+       cP a = Some P ->
+       WF (kvec (ckv a)) (cdeg a) ->
+       length P = cnpts a ->
+       Forall (fun q : pt => length q = d) P ->
+       c_knot_insert a nodes = Ok b ->
+       kdeg (ckv b) = cdeg a ->
+       separated (kvec (ckv b)) ->
+       (forall kn : kv,
+        kor (ckv b) (ckv a) = Ok kn -> exists T E : mat, spline2spline (ckv a) kn None = Ok (T, E)) ->
+       c_eq b a = Ok true.
+Proof. exact c_eq_insert_l_true. Qed.
+Print Assumptions C13_insertion_gives_true_left.
+
+Theorem C13_update_to_refinement_is_insertion :
+  forall (c : curve) (P : list pt) (d : nat) (nodes : list Q) (c1 : curve) (tol : option Q) (c2 : curve),
+       cW c = None ->
+       cP c = Some P ->
+       WF (kvec (ckv c)) (cdeg c) ->
+       length P = cnpts c ->
+       Forall (fun q : pt => length q = d) P ->
+       c_knot_insert c nodes = Ok c1 ->
+       kdeg (ckv c1) = cdeg c ->
+       c_update c (ckv c1) tol None = Ok c2 ->
+       exists P1 P2 : list pt,
+         cP c1 = Some P1 /\
+         cP c2 = Some P2 /\ Forall2 (Forall2 Qeq) P2 P1 /\ cW c2 = None /\ kv_eqb (ckv c2) (ckv c1) = true.
+Proof. exact c_update_to_refinement. Qed.
+Print Assumptions C13_update_to_refinement_is_insertion.
+
 
 (* non-vacuity: a Bezier parabola equals its refinement by the knot 1/2, in both operand orders; a moved point differs *)
 Example C13_nonvacuous :
